@@ -360,12 +360,9 @@ void AspifTextOutput::rule(Head_t ht, const AtomSpan& head, const LitSpan& body)
 	push(Directive_t::Rule).push(static_cast<uint32_t>(ht)).push(head).push(Body_t::Normal).push(body);
 }
 void AspifTextOutput::rule(Head_t ht, const AtomSpan& head, Weight_t bound, const WeightLitSpan& lits) {
-	if (size(lits) == 0) {
-		AspifTextOutput::rule(ht, head, toSpan<Lit_t>());
-	}
 	push(Directive_t::Rule).push(static_cast<uint32_t>(ht)).push(head);
 	uint32_t top = static_cast<uint32_t>(data_->directives.size());
-	Weight_t min = weight(*begin(lits)), max = min;
+	Weight_t min = size(lits) ? weight(*begin(lits)) : 0, max = min; // no literals: printed as the sum "bound{}"
 	push(Body_t::Sum).push(bound).push(static_cast<uint32_t>(size(lits)));
 	for (const WeightLit_t* it = begin(lits), *end = Potassco::end(lits); it != end; ++it) {
 		push(Potassco::lit(*it)).push(Potassco::weight(*it));
@@ -471,8 +468,8 @@ void AspifTextOutput::writeDirectives() {
 						break;
 					case Body_t::Count: // fall through
 					case Body_t::Sum:
-						os_ << sep << get<Weight_t>();
-						sep = "{";
+						os_ << sep << get<Weight_t>() << "{";
+						sep = "";
 						for (uint32_t n = get<uint32_t>(); n--; sep = "; ") {
 							printName(os_ << sep, get<Lit_t>());
 							if (bt == Body_t::Sum) { os_ << "=" << get<Weight_t>(); }
